@@ -32,7 +32,7 @@ class IrGenerator:
         BLOCK = enum.auto()
 
     @staticmethod
-    def convert_sequential(inp: out.Sequential):
+    def convert_sequential(inp: out.Sequential, always_temporaries: IdMap | None = None):
         assert (
             not inp.code().returns()
         ), f"return from top level sequential function not possible"
@@ -86,6 +86,12 @@ class IrGenerator:
 
             concurrent.visit_referenced_objects(replace_temporaries)
             converter.code().visit_referenced_objects(replace_temporaries)
+
+            if always_temporaries is not None:
+                # entities instantiated in the always expression
+                # are connected to the replaced temporaries
+                for temp_id, replacement in temp_replacement.items():
+                    always_temporaries[temp_id] = replacement
 
             always_expr = concurrent
 
@@ -905,6 +911,9 @@ class ConvertInstance:
         # roots of temporaries that are connected to ports of entity instances
         self._port_temporaries = IdSet()
 
+        # signals that replace the temporaries defined in always expressions
+        self._always_temporaries = IdMap()
+
     def lookup_template(self, source: out.EntityTemplate) -> ir.EntityTemplate | None:
         if source in self._entity_templates:
             return self._entity_templates[source]
@@ -1116,16 +1125,37 @@ class ConvertInstance:
     #
     #
 
+    def _connect_always_temporaries(self, blocks: list):
+        # Temporaries defined in always expressions are replaced with signals
+        # when the contexts are converted. Connect entities, that were instantiated
+        # in always expressions, to these signals.
+        for block in blocks:
+            if isinstance(block, ir.Entity):
+                for name, actual in block._ports.items():
+                    if (
+                        isinstance(actual, Temporary)
+                        and actual._root in self._always_temporaries
+                    ):
+                        block._ports[name] = Signal[actual.type](
+                            actual.type(),
+                            _root=self._always_temporaries[actual._root],
+                            _ref_spec=actual._ref_spec,
+                        )
+
     def apply(self, inp):
         try:
             if isinstance(inp, out.EntityTemplate):
                 ir_template = self.lookup_template(inp)
 
                 if ir_template is None:
+                    subblocks = [self.apply(block) for block in inp.subblocks()]
+                    contexts = [self.apply(ctx) for ctx in inp.contexts()]
+                    self._connect_always_temporaries(subblocks)
+
                     ir_template = ir.EntityTemplate(
                         inp._info,
-                        [self.apply(block) for block in inp.subblocks()],
-                        [self.apply(ctx) for ctx in inp.contexts()],
+                        subblocks,
+                        contexts,
                     )
 
                     self.add_template(inp, ir_template)
@@ -1144,14 +1174,18 @@ class ConvertInstance:
                 return ir.Entity(
                     template,
                     inp._info.name,
-                    inp.port_definitions(),
+                    {**inp.port_definitions()},
                     inp.generic_definitions(),
                 )
             if isinstance(inp, out.Block):
+                subblocks = [self.apply(subinst) for subinst in inp.subblocks()]
+                contexts = [self.apply(ctx) for ctx in inp.contexts()]
+                self._connect_always_temporaries(subblocks)
+
                 return ir.Block(
                     "<BLOCK>",
-                    [self.apply(subinst) for subinst in inp.subblocks()],
-                    [self.apply(ctx) for ctx in inp.contexts()],
+                    subblocks,
+                    contexts,
                     inp._attributes,
                 )
 
@@ -1196,7 +1230,7 @@ class ConvertInstance:
                 return result
 
             if isinstance(inp, out.Sequential):
-                result = IrGenerator.convert_sequential(inp)
+                result = IrGenerator.convert_sequential(inp, self._always_temporaries)
 
                 ConvertInstance.detect_uninitialized_temporaries(result)
 
